@@ -3,6 +3,7 @@
 import json, sys
 pid = sys.argv[1]
 wt = sys.argv[2] if len(sys.argv) > 2 else f"/tmp/wt/{pid}"
+avoid = sys.argv[3] if len(sys.argv) > 3 else ""
 for l in open('/verif/properties.jsonl'):
     p = json.loads(l)
     if p['id'] == pid:
@@ -20,7 +21,7 @@ The semantic property to break:
   Quantified over: {p['quantifier']['text']}
   Relevant files: {', '.join(p['anchors']['files'])}
 
-Task: make ONE small, realistic source change (the kind of slip or well-meant "optimisation"/refactor a maintainer could really commit; 1-15 changed lines, not a comment, not test code) under {wt}/keras_tuner/ that makes this property FALSE for some inputs/schedules/histories, while the package still imports and the EXISTING test-suite still passes. The change must NOT be one that ordinary use would expose at once: it should need something specific to manifest - a particular interleaving of requests from several tuner ids, a crash/fault/exception at a particular point, a multi-step sequence of operations, an unusual input (boundary value, tie, NaN, nesting, particular step/min/max), or two cooperating sites that each look fine alone. Prefer a change in the mechanism the property is anchored in (the relevant files above), not in unrelated helpers.
+Task: make ONE small, realistic source change (the kind of slip or well-meant "optimisation"/refactor a maintainer could really commit; 1-15 changed lines, not a comment, not test code) under {wt}/keras_tuner/ that makes this property FALSE for some inputs/schedules/histories, while the package still imports and the EXISTING test-suite still passes. The change must NOT be one that ordinary use would expose at once: it should need something specific to manifest - a particular interleaving of requests from several tuner ids, a crash/fault/exception at a particular point, a multi-step sequence of operations, an unusual input (boundary value, tie, NaN, nesting, particular step/min/max), or two cooperating sites that each look fine alone. Prefer a change in the mechanism the property is anchored in (the relevant files above), not in unrelated helpers.{(" AVOID: " + avoid) if avoid else ""}
 
 Deliver, inside {wt}:
   1. the source change itself (leave it applied in the worktree, uncommitted);
